@@ -10,7 +10,9 @@ MEASURES = ["newman_betweenness", "nsi_newman_betweenness", "nsi_arenas_betweenn
 # documented argument patterns of the distributed measures ("name~variant")
 VARIANTS = {"nsi_newman_betweenness~ends": ("nsi_newman_betweenness", {"add_local_ends": True}),
             "nsi_arenas_betweenness~twinness": ("nsi_arenas_betweenness", {"stopping_mode": "twinness"}),
-            "nsi_arenas_betweenness~inclnb": ("nsi_arenas_betweenness", {"exclude_neighbors": False})}
+            "nsi_arenas_betweenness~inclnb": ("nsi_arenas_betweenness", {"exclude_neighbors": False}),
+            # (the spelling of the docstring: "twinnness")
+            "nsi_arenas_betweenness~twinnness": ("nsi_arenas_betweenness", {"stopping_mode": "twinnness"})}
 MEASURES_X = MEASURES + sorted(VARIANTS)
 
 
@@ -18,12 +20,26 @@ def _split(measure):
     return VARIANTS.get(measure, (measure, {}))
 
 
-def make_graph(sizes, seed):
-    """Seeded random graph whose components are connected and have the given sizes."""
+def make_graph(sizes, seed, shape="random"):
+    """Seeded random graph whose components are connected and have the given sizes.  shape "hubmid": every
+    component is a hub in the MIDDLE of its node range with all lower-numbered nodes as leaves, followed by a path
+    (a degree distribution as uneven as it gets: any chunking that depends on the links sees it)."""
     rng = random.Random(seed)
     n = sum(sizes)
     A = np.zeros((n, n), dtype=int)
     off = 0
+    if shape == "hubmid":
+        for sz in sizes:
+            hub = off + (2 * sz) // 3 - 3 + (seed % 7)
+            for a in range(off, hub):
+                A[a, hub] = A[hub, a] = 1
+            for a in range(hub, off + sz - 1):
+                A[a, a + 1] = A[a + 1, a] = 1
+            if off + sz - hub > 3 and seed % 2 == 1:        # (every second one with a chord on the path)
+                A[hub + 1, off + sz - 1] = A[off + sz - 1, hub + 1] = 1
+            off += sz
+        w = np.array([rng.choice([1.0, 2.0, 0.5, 1.5]) for _ in range(n)])
+        return A, w
     for sz in sizes:
         nodes = list(range(off, off + sz))
         rng.shuffle(nodes)
@@ -56,7 +72,7 @@ def _call(net, measure, silence):
 def run_case(c):
     from pyunicorn.core import Network
     from vlib.mpistandin import World
-    A, w = make_graph(c["sizes"], c["gseed"])
+    A, w = make_graph(c["sizes"], c["gseed"], c.get("shape", "random"))
     rec = dict(c)
     serial = Network(adjacency=A.copy(), node_weights=w.copy(), silence_level=3)
     try:
@@ -189,7 +205,7 @@ def run_chunks(c):
 def run_parallelize(c):
     """nsi_betweenness with the multiprocessing pool vs. serial."""
     from pyunicorn.core import Network
-    A, w = make_graph(c["sizes"], c["gseed"])
+    A, w = make_graph(c["sizes"], c["gseed"], c.get("shape", "random"))
     rec = dict(c)
     rec["exc"] = ""
     try:
@@ -289,7 +305,7 @@ def main(ctx):
         for h in hs:
             W, parts, hist = h[1], tuple(h[2]), h[3]
             for mi, m in enumerate(MEASURES_X):
-                if ctx.tier == "quick" and (k + mi) % 6 != 0 and len(hs) > 30:
+                if ctx.tier == "quick" and (k + mi) % len(MEASURES_X) != 0 and len(hs) > 30:
                     continue                      # quick: each behaviour on one measure
                 cases.append({"case": "b%d_%s" % (k, m), "blk": "tlc", "W": W, "sizes": SIZES[(W, parts)],
                               "gseed": ctx.seed + (k % 5), "measure": m, "silence": (k + mi) % 4,
@@ -303,8 +319,19 @@ def main(ctx):
         n = sum(sizes)
         W = rng.randint(2, n + 2) if j % 3 else rng.choice([2, n + 2])
         cases.append({"case": "p%d" % j, "blk": "policy", "W": W, "sizes": sizes, "gseed": ctx.seed + j,
-                      "measure": MEASURES_X[j % 6], "silence": j % 4,
+                      "measure": MEASURES_X[j % len(MEASURES_X)], "silence": j % 4,
                       "policy": ["lazy", "eager", "reverse", "random"][j % 4]})
+    # ... and hub-in-the-middle components (>= 21 nodes: at least three parts), every measure
+    # (seven positions of the hub - the graph seed - for every measure)
+    j = 0
+    for sizes in ([[24]] if ctx.tier == "quick" else [[24], [33], [22, 9], [41]]):
+        n = sum(sizes)
+        for m in MEASURES_X:
+            for hubpos in range(7):
+                cases.append({"case": "h%d" % j, "blk": "policy", "W": [2, 3, n + 2][j % 3], "sizes": sizes,
+                              "shape": "hubmid", "gseed": hubpos, "measure": m, "silence": (j + 1) % 4,
+                              "policy": ["eager", "lazy", "random", "reverse"][j % 4]})
+                j += 1
     ctx.exhaustive = False
     ctx.extra["rule"] = (
         "DESIGN: TLC model-checks MpiProtocol (all interleavings of master and worker steps, liveness) and the chunk "
